@@ -10,14 +10,15 @@ package meshgen
 //
 // where S_j is one small tile shifted by j * 100000 along x, and the right-hand side is assembled by the
 // harness from the implementation's results on the small tiles (the kind of call the other streams check
-// against the Coq model; tile 0 is also emitted as an ordinary case).  The sizes walk systematically around
-// powers of two (4095, 4096, 4097, 8193 ...), with the tail of the vertex array referenced or unreferenced.
+// against the Coq model; tile 0 is also emitted as an ordinary case).  The sizes are a ladder with one rung just
+// above every power of two from 2^10 to 2^15 (2^17 in the thorough tier), tail of the vertex array referenced or not.
 // C02 judges the big result with the harness copy of wfb; C03 compares it with the union, value by value.
 
 import (
 	"encoding/json"
 	"fmt"
 	"math"
+	"strings"
 
 	"github.com/EliCDavis/polyform/modeling"
 
@@ -39,9 +40,13 @@ var TileOps = []string{"unweld", "remove_unref", "remove_null", "flip", "to_poin
 	"translate", "scale3", "scale2", "rotate", "apply_trs", "scale_along_normal",
 	"smooth_normals", "flat_normals", "smooth_implicit", "laplacian", "laplacian_axis"}
 
-// TileSizes: vertex-count targets of the quick tier / additional ones of the thorough tier.
-var TileSizes = []int{1023, 1025, 2049, 4095, 4096, 4097, 4099, 5000, 8191, 8193, 10000, 12289}
-var TileSizesThorough = []int{16385, 20000, 32769, 65537}
+// TileRungs: the ladder of vertex-count targets.  Internal block limits that do not exist yet are invented at
+// powers of two: one rung just above each of 2^10 .. 2^15 in the quick tier, 2^16 and 2^17 in addition in the
+// thorough tier.  Every local operation meets BOTH rungs >= 2^14 in every quick run, plus one lower rung that
+// rotates with the seed; the thorough tier climbs the whole ladder.
+var TileRungsLow = []int{1<<10 + 1, 1<<11 + 1, 1<<12 + 1, 1<<13 + 1}
+var TileRungsHigh = []int{1<<14 + 1, 1<<15 + 1}
+var TileRungsThorough = []int{1<<16 + 1, 1<<17 + 1}
 
 func shifted(d Desc, j int) Desc {
 	out := d
@@ -226,17 +231,19 @@ func TileCase(td TileDesc) hx.Case {
 	return c
 }
 
-// tileFor draws a small tile that fits the operation.
-func tileFor(r *hx.Rng, op string) Desc {
-	topo := modeling.TriangleTopology
+// tileFor draws a small tile that fits the operation; the topology rotates with `turn` over the ones the
+// operation accepts.
+func tileFor(r *hx.Rng, op string, turn int) Desc {
+	topos := []modeling.Topology{modeling.TriangleTopology}
 	switch op {
 	case "crop":
-		topo = modeling.PointTopology
+		topos = []modeling.Topology{modeling.PointTopology}
 	case "unweld", "remove_unref", "to_points", "filter", "translate", "scale3", "scale2", "rotate", "apply_trs", "scale_along_normal":
-		topo = hx.Pick(r, []modeling.Topology{modeling.TriangleTopology, modeling.TriangleTopology, modeling.PointTopology, modeling.QuadTopology, modeling.LineTopology})
+		topos = []modeling.Topology{modeling.TriangleTopology, modeling.PointTopology, modeling.QuadTopology, modeling.TriangleTopology, modeling.LineTopology}
 	case "laplacian", "laplacian_axis":
-		topo = hx.Pick(r, []modeling.Topology{modeling.TriangleTopology, modeling.TriangleTopology, modeling.LineTopology}) // (a line strip runs on into the next tile: not a disjoint union)
+		topos = []modeling.Topology{modeling.TriangleTopology, modeling.LineTopology, modeling.TriangleTopology} // (a line strip runs on into the next tile: not a disjoint union)
 	}
+	topo := topos[turn%len(topos)]
 	for {
 		d := Random(r, Options{Topo: int(topo), FixTopo: true, NeedPos: true, MaxVerts: 9, Materials: 1})
 		if d.NVerts() < 3 || len(d.Idx) == 0 {
@@ -282,30 +289,32 @@ func tileFor(r *hx.Rng, op string) Desc {
 	}
 }
 
-// Tiles adds the systematic pass: every local operation once, at a size that rotates with the seed.
+// Tiles adds the systematic pass: every local operation at both high rungs and one rotating low rung (quick), at
+// every rung (thorough); topologies rotate over the rungs; tile 0 of the first rung is also an ordinary case.
 func Tiles(run *hx.Run, r *hx.Rng, thorough bool) {
-	sizes := TileSizes
-	if thorough {
-		sizes = append(append([]int{}, TileSizes...), TileSizesThorough...)
-	}
-	rounds := 1
-	if thorough {
-		rounds = 4
-	}
-	for round := 0; round < rounds; round++ {
-		start := r.Intn(len(sizes))
-		for k, op := range TileOps {
-			target := sizes[(start+k)%len(sizes)]
-			if op == "smooth_implicit" && target > 5000 {
-				target = hx.Pick(r, []int{4095, 4096, 4097}) // its neighbourhood search is the costly one
+	start := r.Intn(len(TileRungsLow))
+	for k, op := range TileOps {
+		rungs := []int{TileRungsLow[(start+k)%len(TileRungsLow)], TileRungsHigh[0], TileRungsHigh[1]}
+		if thorough {
+			rungs = append(append(append([]int{}, TileRungsLow...), TileRungsHigh...), TileRungsThorough...)
+		}
+		for ri, target := range rungs {
+			if op == "smooth_implicit" && target > 1<<15+1 {
+				continue // its neighbourhood search is quadratic in practice
 			}
-			tile := tileFor(r, op)
+			tile := tileFor(r, op, start+k+ri)
 			var o OpDesc
 			for tries := 0; ; tries++ {
 				o = RandomOp(r, tile, []string{op})
 				if o.Op == op && (suitable(op, tile) || tries > 20) {
 					break
 				}
+			}
+			if vs, ok := opVariants[op]; ok {
+				if strings.TrimSpace(o.Attr) == "" {
+					o.Attr = o.attrName() // the Transformer's fallback attribute, spelled out
+				}
+				o.Variant = vs[(start+k+ri)%len(vs)] // function / Transformer / Mesh method / generic modifier rotate over the rungs
 			}
 			if (op == "laplacian" || op == "laplacian_axis") && o.Iter == 0 {
 				o.Iter = 1
@@ -315,7 +324,7 @@ func Tiles(run *hx.Run, r *hx.Rng, thorough bool) {
 			}
 			nv := tile.NVerts()
 			td := TileDesc{Tile: tile, Op: o}
-			if r.Bool() && op != "remove_null" { // (RemoveNullFaces3D returns its input untouched when no face goes: not local for stray vertices)
+			if (start+k+ri)%2 == 0 && op != "remove_null" { // (RemoveNullFaces3D returns its input untouched when no face goes: not local for stray vertices)
 				// the tail of the vertex array is unreferenced
 				td.Copies, td.Rest = target/nv, target%nv
 			} else {
@@ -323,16 +332,18 @@ func Tiles(run *hx.Run, r *hx.Rng, thorough bool) {
 				td.Copies = (target + nv - 1) / nv
 			}
 			run.Count("tile:op:" + op)
-			run.Count(fmt.Sprintf("tile:size:%d", target))
-			c := TileCase(td)
-			run.Add(c)
-			// tile 0 as an ordinary case (checked against the Coq model)
-			sd := StepDesc{Ins: []Desc{tile}, Op: o}
-			if IsFrameOp(op) {
-				run.Add(FrameCase(sd))
-			} else {
-				c0, _, _ := OpCase(sd)
-				run.Add(c0)
+			run.Count(fmt.Sprintf("tile:rung:%d", target))
+			run.Count("tile:topology:" + topoCoq[modeling.Topology(tile.Topo)])
+			run.Add(TileCase(td))
+			if ri == 0 {
+				// tile 0 as an ordinary case (checked against the Coq model)
+				sd := StepDesc{Ins: []Desc{tile}, Op: o}
+				if IsFrameOp(op) {
+					run.Add(FrameCase(sd))
+				} else {
+					c0, _, _ := OpCase(sd)
+					run.Add(c0)
+				}
 			}
 		}
 	}
